@@ -305,3 +305,65 @@ def canon_facts(node, stop=None):
 def canon_test(test, pol=True):
     """Canonical conjuncts of a test taken with the given polarity."""
     return {canon_fact(e, p) for e, p in split(test, pol)}
+
+
+def alias_env(func):
+    """Local names bound exactly once in `func` (plain assignment or element-wise tuple unpacking; not loop targets, not
+    augmented) -> the expression they stand for.  Used to compare expressions modulo local naming."""
+    import copy
+    from .core import walk_local
+    binds = {}
+    for n in walk_local(func):
+        if isinstance(n, ast.Assign):
+            for t in n.targets:
+                if isinstance(t, ast.Name):
+                    binds.setdefault(t.id, []).append(n.value)
+                elif isinstance(t, (ast.Tuple, ast.List)) and isinstance(n.value, (ast.Tuple, ast.List)) and len(t.elts) == len(n.value.elts):
+                    for a, b in zip(t.elts, n.value.elts):
+                        if isinstance(a, ast.Name):
+                            binds.setdefault(a.id, []).append(b)
+                        else:
+                            for x in ast.walk(a):
+                                if isinstance(x, ast.Name):
+                                    binds.setdefault(x.id, []).append(None)
+                else:
+                    for x in ast.walk(t):
+                        if isinstance(x, ast.Name) and isinstance(x.ctx, ast.Store):
+                            binds.setdefault(x.id, []).append(None)
+        elif isinstance(n, (ast.AugAssign, ast.AnnAssign)) and isinstance(n.target, ast.Name):
+            binds.setdefault(n.target.id, []).append(None)
+        elif isinstance(n, (ast.For, ast.comprehension)):
+            for x in ast.walk(n.target):
+                if isinstance(x, ast.Name):
+                    binds.setdefault(x.id, []).append(None)
+        elif isinstance(n, ast.withitem) and n.optional_vars is not None:
+            for x in ast.walk(n.optional_vars):
+                if isinstance(x, ast.Name):
+                    binds.setdefault(x.id, []).append(None)
+    args = {a.arg for a in func.args.args + func.args.kwonlyargs} if hasattr(func, "args") else set()
+    return {k: v[0] for k, v in binds.items() if len(v) == 1 and v[0] is not None and k not in args and
+            not isinstance(v[0], (ast.Call, ast.ListComp, ast.GeneratorExp, ast.List, ast.Dict, ast.Set, ast.DictComp, ast.SetComp, ast.Lambda, ast.Yield, ast.Await))}
+
+
+def expand(e, env, depth=0):
+    """copy of expression `e` with the names of `env` replaced by what they stand for (recursively)"""
+    import copy
+
+    class _T(ast.NodeTransformer):
+        def visit_Name(self, n):
+            if isinstance(n.ctx, ast.Load) and n.id in env and depth < 6:
+                return expand(env[n.id], env, depth + 1)
+            return n
+    return _T().visit(copy.deepcopy(e))
+
+
+def xnorm(e, env):
+    return norm(expand(e, env))
+
+
+def xcanon_facts(node, env, stop=None):
+    """canonical must-facts with local single-assignment names expanded"""
+    out = set()
+    for e, pol in facts(node, stop):
+        out.add(canon_fact(expand(e, env), pol))
+    return out
